@@ -22,7 +22,7 @@ pub static DEF: PropDef = PropDef {
     run,
 };
 
-pub const KINDS: [&str; 11] = ["misplaced-leaf", "misplaced-master-start", "width-overflow-leaf", "full-width-overflow", "unknown-on-leaf", "bad-raw-id", "wrong-end", "full-invalid-child", "several-in-a-row", "end-size-overflow", "flush-cannot-close-outer"];
+pub const KINDS: [&str; 12] = ["misplaced-leaf", "misplaced-master-start", "width-overflow-leaf", "full-width-overflow", "unknown-on-leaf", "bad-raw-id", "wrong-end", "full-invalid-child", "several-in-a-row", "end-size-overflow", "flush-cannot-close-outer", "full-rejected-then-its-leaf"];
 
 /// chain of open masters (id, known?) after calls[..p]
 pub fn shadow_at(calls: &[WCall], p: usize) -> Vec<(u64, bool)> {
@@ -80,6 +80,31 @@ pub fn make_failing3(rng: &mut Rng, spec: &Spec, kind: &str, chain: &[(u64, bool
         }
         suffix.push(WCall::Write(Item::End(sub.id), SizeOpt::Default));
         return Some((prefix, vec![WCall::Flush], suffix));
+    }
+    if kind == "full-rejected-then-its-leaf" {
+        // a Full whose first child is a leaf that is allowed inside it but not at the place where the Full is written,
+        // followed by a misplaced child: the Full is rejected. The call that follows in both histories writes that same
+        // leaf where it is not allowed — whatever the writer remembered of the rejected Full must not make it acceptable.
+        let ids: Vec<u64> = chain.iter().map(|x| x.0).collect();
+        let allowed: Vec<&Elem> = spec.allowed_under(&ids);
+        let masters: Vec<&&Elem> = allowed.iter().filter(|e| e.ty == Ty::Master).collect();
+        if masters.is_empty() {
+            return None;
+        }
+        let e = **rng.pick(&masters);
+        let mut ids2 = ids.clone();
+        ids2.push(e.id);
+        let inner: Vec<&Elem> = spec.allowed_under(&ids2).into_iter().filter(|x| x.ty != Ty::Master && !crate::spec::ref_path_match(&x.path, &ids)).collect();
+        let bad: Vec<&Elem> = spec.elems.iter().filter(|x| x.ty != Ty::Master && !crate::spec::ref_path_match(&x.path, &ids2)).collect();
+        if inner.is_empty() || bad.is_empty() {
+            return None;
+        }
+        let l: &Elem = *rng.pick(&inner);
+        let b: &Elem = *rng.pick(&bad);
+        let leaf = sample_value(rng, l);
+        let full = Item::Full(e.id, vec![leaf.clone(), sample_value(rng, b)]);
+        let opt = if rng.chance(1, 4) { SizeOpt::Unknown } else { SizeOpt::Default };
+        return Some((vec![], vec![WCall::Write(full, opt)], vec![WCall::Write(leaf, SizeOpt::Default)]));
     }
     make_failing2(rng, spec, kind, chain).map(|(a, b)| (a, b, vec![]))
 }
@@ -349,7 +374,7 @@ fn run(c: &mut Case) {
         };
         // when accepted calls have to precede the failing one, the reference history contains them too
         let base_local;
-        let (base, h): (&crate::wr::WRun, Vec<WCall>) = if prefix.is_empty() {
+        let (base, h): (&crate::wr::WRun, Vec<WCall>) = if prefix.is_empty() && suffix.is_empty() {
             (&base, h.clone())
         } else {
             let mut hb: Vec<WCall> = h[..p].to_vec();
